@@ -2,6 +2,7 @@ package yaml
 
 import (
 	"github.com/lmorg/murex/lang/stdio"
+	yaml "gopkg.in/yaml.v3"
 )
 
 type arrayWriter struct {
@@ -14,12 +15,19 @@ func newArrayWriter(writer stdio.Io) (stdio.ArrayWriter, error) {
 }
 
 func (w *arrayWriter) Write(b []byte) error {
-	_, err := w.writer.Writeln(append([]byte{'-', ' '}, b...))
-	return err
+	return w.WriteString(string(b))
 }
 
+// WriteString writes one sequence entry. The element is text, so it is encoded
+// as a YAML string scalar (quoted or escaped where a plain scalar would be read
+// back as something else: `k: v`, `#x`, `123`, `null`, `- x`, `"q"`, ...)
 func (w *arrayWriter) WriteString(s string) error {
-	_, err := w.writer.Writeln([]byte("- " + s))
+	b, err := yaml.Marshal([]string{s})
+	if err != nil {
+		return err
+	}
+
+	_, err = w.writer.Write(b)
 	return err
 }
 
